@@ -79,6 +79,21 @@ def _metals():
     return st.one_of(st.just([]), st.just([]), st.lists(st.one_of(st.none(), _metal(), _metal()), min_size=1, max_size=5))
 
 
+def _periodic_spec():
+    """periodic coatings (quarter-wave mirrors (HL)^N, (HL)^N H, (ABC)^N AB ...): the first p film layers repeated `reps` times plus the first
+    `extra` layers of one more period, in front of the exit medium; None in two cases out of three"""
+    return st.one_of(st.none(), st.none(), st.fixed_dictionaries({'p': st.integers(1, 3), 'reps': st.integers(2, 5), 'extra': st.integers(0, 2)}))
+
+
+def _periodic(layers, spec):
+    if not spec or len(layers) < 2:
+        return layers
+    film, sub = list(layers[:-1]), layers[-1]
+    p = min(spec['p'], len(film))
+    group = film[:p]
+    return group * spec['reps'] + group[:spec['extra'] % p] + [sub]
+
+
 def _layers(lo, hi, index=_index):
     return st.lists(st.tuples(index(), _thick()).map(list), min_size=lo, max_size=hi)
 
@@ -246,7 +261,7 @@ def strat_energy(tier):
         'layers': _layers(1, 6, _index_wide), 'wvl': U.nice_float(0.3, 2.0), 'n0': st.one_of(st.just(1.0), U.nice_float(1.0, 2.5)),
         'f': _f_wide(), 'pol': POL, 'form': st.sampled_from(FORMS), 'num': st.sampled_from(NUMS),
         'kappa': st.one_of(st.just([]), st.just([]), st.lists(st.one_of(st.just(0.0), U.nice_float(0.0, 1.5)), min_size=1, max_size=5)),
-        'wexp': st.sampled_from(WEXP), 'dmul': st.sampled_from(DMUL), 'argt': ARGT, 'pre': st.sampled_from(PRE), 'metal': _metals(),
+        'wexp': st.sampled_from(WEXP), 'dmul': st.sampled_from(DMUL), 'argt': ARGT, 'pre': st.sampled_from(PRE), 'metal': _metals(), 'periodic': _periodic_spec(),
     })
 
 
@@ -259,6 +274,9 @@ def _energy_tol(cmin, f32=False):
 
 def check_energy(case, ctx):
     """R + T(n_s cos th_s / n0 cos th0) == 1 for lossless stacks; <= 1 when interior layers absorb."""
+    if case.get('periodic'):
+        case = dict(case, layers=_periodic(case['layers'], case['periodic']))
+        ctx.label('periodic-film', 'partial-last-period' if (len(case['layers']) - 1) % max(1, min(case['periodic']['p'], len(case['layers']) - 1)) else 'whole-periods')
     wvl, n0, f, pol = case['wvl'], case['n0'], case['f'], case['pol']
     form, num = case['form'], case.get('num', 'float')
     argt, pre = case.get('argt', ARGT0), case.get('pre', 'none')
@@ -338,7 +356,8 @@ def strat_fresnel(tier):
     return st.fixed_dictionaries({
         'n0': st.one_of(st.just(1.0), U.nice_float(1.0, 4.0), U.nice_float(1.3, 4.0)), 'n1': _index(), 'f': _f_wide(), 'd': _thick(),
         'wvl': U.nice_float(0.3, 2.0), 'ints': st.sampled_from([False, False, True]), 'form': st.sampled_from(FORMS), 'argt': ARGT,
-        'wexp': st.sampled_from(WEXP)})
+        'wexp': st.sampled_from(WEXP),
+        'unit_kw': st.sampled_from(['positional', 'keyword', 'keyword'])})      # how the degrees / radians switch of the angle helpers is passed
 
 
 def check_fresnel(case, ctx):
@@ -397,8 +416,10 @@ def check_fresnel(case, ctx):
         ctx.require(abs(abs(t) - abs(fr['t' + p])) <= tol, 'fresnel_t%s:vs-stack%s' % (p, cls),
                     '%s d=%r wvl=%r: one-layer stack %r |t_%s|=%.17g, |fresnel_t%s|=%.17g' % (desc, d, wvl, one, p, abs(t), p, abs(fr['t' + p])))
     # Brewster
-    thb = float(ctx.call(tf.brewsters_angle, n0, n1, False))
-    thb_deg = float(ctx.call(tf.brewsters_angle, n0, n1))
+    ukw = case.get('unit_kw', 'positional') == 'keyword'
+    ctx.label('unit-switch:' + ('keyword' if ukw else 'positional'))
+    thb = float(ctx.call(tf.brewsters_angle, n0, n1, deg=False)) if ukw else float(ctx.call(tf.brewsters_angle, n0, n1, False))
+    thb_deg = float(ctx.call(tf.brewsters_angle, n0, n1, deg=True)) if ukw else float(ctx.call(tf.brewsters_angle, n0, n1))
     ctx.require(abs(math.tan(thb) - n1 / n0) <= 1e-12 * (n1 / n0) and abs(math.radians(thb_deg) - thb) <= 1e-14,
                 'brewsters_angle', 'n0=%r n1=%r: %r rad / %r deg, tan should be n1/n0' % (n0, n1, thb, thb_deg))
     th1b = math.asin(n0 * math.sin(thb) / n1)   # always below the critical angle
@@ -411,15 +432,18 @@ def check_fresnel(case, ctx):
         ctx.require(abs(rsb) > 1e-6 * abs(n0 - n1), 'fresnel_rs:brewster', 's light must still be reflected at the Brewster angle, got %r' % rsb)
     # Snell
     for deg in (True, False):
-        a = ctx.call(tf.snell_aor, n0, n1, math.degrees(th0) if deg else th0, deg)
+        if ukw:
+            a = ctx.call(tf.snell_aor, n0, n1, math.degrees(th0) if deg else th0, degrees=deg)
+        else:
+            a = ctx.call(tf.snell_aor, n0, n1, math.degrees(th0) if deg else th0, deg)
         a = _scalar(ctx, a, 'snell_aor:nonfinite', 'snell_aor')
         ctx.require(abs(n1 * np.sin(a) - n0 * math.sin(th0)) <= 1e-12 * n0, 'snell_aor',
                     '%s degrees=%s: n1 sin(th1)=%r, n0 sin(th0)=%r' % (desc, deg, n1 * np.sin(a), n0 * math.sin(th0)))
     # critical angle: going from the denser medium into the rarer one at that angle refracts to 90 deg
     lo, hi = min(n0, n1), max(n0, n1)
     if lo < hi:
-        thc = float(ctx.call(tf.critical_angle, lo, hi, False))
-        thc_deg = float(ctx.call(tf.critical_angle, lo, hi))
+        thc = float(ctx.call(tf.critical_angle, lo, hi, deg=False)) if ukw else float(ctx.call(tf.critical_angle, lo, hi, False))
+        thc_deg = float(ctx.call(tf.critical_angle, lo, hi, deg=True)) if ukw else float(ctx.call(tf.critical_angle, lo, hi))
         ctx.require(abs(math.sin(thc) - lo / hi) <= 1e-12 and abs(math.radians(thc_deg) - thc) <= 1e-14, 'critical_angle',
                     'critical_angle(%r, %r) = %r rad / %r deg; sin should be %r' % (lo, hi, thc, thc_deg, lo / hi))
         out = _scalar(ctx, ctx.call(tf.snell_aor, hi, lo, thc, False), 'snell_aor:nonfinite', 'snell_aor')
@@ -430,13 +454,16 @@ def check_fresnel(case, ctx):
 def strat_absentee(tier):
     return st.fixed_dictionaries({
         'layers': _layers(1, 5, _index_wide), 'wvl': U.nice_float(0.3, 2.0), 'n0': st.one_of(st.just(1.0), U.nice_float(1.0, 2.5)),
-        'f': _f_wide(), 'pol': POL, 'n_new': _index_wide(), 'pos': st.integers(0, 4), 'm': st.sampled_from([1, 2, 3, 1, 2, 3, 50, 1000]),
+        'f': _f_wide(), 'pol': POL, 'n_new': _index_wide(), 'pos': st.one_of(st.integers(0, 4), st.integers(0, 20)), 'periodic': _periodic_spec(), 'm': st.sampled_from([1, 2, 3, 1, 2, 3, 50, 1000]),
         'form': st.sampled_from(FORMS), 'num': st.sampled_from(['float', 'float', 'int', 'mixed']), 'wexp': st.sampled_from(WEXP),
         'argt': ARGT, 'pre': st.sampled_from(PRE)})
 
 
 def check_absentee(case, ctx):
     """zero-thickness layer in front of any layer changes r, t by nothing; half-wave layer leaves R, T unchanged."""
+    if case.get('periodic'):
+        case = dict(case, layers=_periodic(case['layers'], case['periodic']))
+        ctx.label('periodic-film', 'partial-last-period' if (len(case['layers']) - 1) % max(1, min(case['periodic']['p'], len(case['layers']) - 1)) else 'whole-periods')
     wvl, n0, f, pol = case['wvl'], case['n0'], case['f'], case['pol']
     nn, m = case['n_new'], case['m']
     form, num, argt, pre = case.get('form', 'list'), case.get('num', 'float'), case.get('argt', ARGT0), case.get('pre', 'none')
@@ -505,7 +532,9 @@ def strat_batch(tier):
         'n0': st.one_of(st.just(1.0), U.nice_float(1.0, 2.0)), 'f': _f_wide(), 'pol': POL,
         'vary': st.sampled_from(['both', 'thickness', 'index']), 'absorbing': st.booleans(),
         'special': st.sampled_from(SPECIALS), 'form': st.sampled_from(BFORMS), 'num': st.sampled_from(BNUMS), 'wexp': st.sampled_from(WEXP),
-        'argt': ARGT, 'order': st.sampled_from(['batch-first', 'batch-first', 'loop-first']), 'metal': st.booleans()})
+        'argt': ARGT, 'order': st.sampled_from(['batch-first', 'batch-first', 'loop-first']), 'metal': st.booleans(),
+        # periodic films: every batch element periodic, or (detune) all but one element detuned in one layer so that the batch as a whole is not
+        'periodic': _periodic_spec(), 'detune': st.booleans()})
 
 
 def _batch_maps(case):
@@ -552,6 +581,19 @@ def check_batch(case, ctx):
     if num == 'f32':
         wexp = max(-6, min(6, wexp))    # keep thicknesses inside the float32 range
     n, d = _batch_maps(dict(case, num=num))
+    spec = case.get('periodic')
+    if spec and L > 1:
+        pp = min(spec['p'], L - 1)
+        rows = list(range(pp)) * spec['reps'] + list(range(pp))[:spec['extra'] % pp] + [L - 1]
+        n, d = n[rows].copy(), d[rows].copy()
+        if case.get('detune') and int(np.prod(B)) > 1:
+            # every element but the first gets another thickness in one film layer: single elements stay periodic or not independently of the batch
+            k = int(U.rng_of(case['seed'], 23).integers(0, len(rows) - 1))
+            flat = d[k].reshape(-1)
+            flat[1:] = flat[1:] + (1 if num == 'int' else 0.37)
+            d[k] = flat.reshape(d[k].shape)
+        L = len(rows)
+        ctx.label('periodic-film', 'detuned-batch' if case.get('detune') else 'whole-batch-periodic')
     if wexp:
         d = d * 10.0 ** wexp
         wvl = wvl * 10.0 ** wexp
